@@ -918,6 +918,33 @@ dt_strfdt(char *restrict buf, size_t bsz, const char *fmt, struct dt_dt_s that)
 		}
 	}
 
+	if (!set_fmt) {
+		/* custom formats are calendar agnostic, evaluate the date
+		 * specs on the ymd view so that the output doesn't depend
+		 * on the calendar THAT happens to be held in */
+		if (that.typ == DT_SEXY) {
+			that = dt_dtconv((dt_dttyp_t)DT_YMD, that);
+		}
+		switch (that.typ) {
+		case DT_YMCW:
+			if (!that.d.ymcw.w) {
+				/* sunday given as 00, keep it for %w */
+				break;
+			}
+		case DT_YWD:
+		case DT_YD:
+		case DT_DAISY:
+		case DT_JDN:
+		case DT_LDN:
+		case DT_MDN:
+			/* swap the payload only, keep flags and zdiff */
+			that.d.ymd = dt_dconv(DT_YMD, that.d).ymd;
+			that.d.typ = DT_YMD;
+		default:
+			break;
+		}
+	}
+
 	switch (that.typ) {
 	case DT_YMD:
 	case DT_UMMULQURA:
